@@ -29,6 +29,20 @@ REPLAY_PATHS = ['menpo/image/test']      # suite replay (thorough tier): the rep
 SHARDS = {"quick": 8, "thorough": 16}
 
 
+def only_double_rounding(got, exp):
+    """True when two 64-bit integer arrays differ only where the value cannot be held by a double (|v| > 2**53) and by no
+    more than the spacing of doubles there - the signature of a trip through float64."""
+    got, exp = np.asarray(got), np.asarray(exp)
+    if got.shape != exp.shape or exp.dtype.kind not in "iu" or exp.dtype.itemsize < 8:
+        return False
+    bad = got != exp
+    if not bad.any():
+        return False
+    e = exp[bad].astype(np.float64)
+    g = got[bad].astype(np.float64)
+    return bool((np.abs(e) > 2.0 ** 53).all() and (np.abs(g - e) <= np.abs(e) * 2.0 ** -51).all())
+
+
 def bit_equal(a, b):
     """Same shape, same dtype, same bits (a zero keeps its sign; any NaN stands for any NaN)."""
     a, b = np.asarray(a), np.asarray(b)
@@ -83,7 +97,17 @@ class CropMonitor(taps.Monitor):
                     ctx.fail("boundary_error_reports_wrong_bounds", cls=cls, mech=side)
             return
         if (chi <= clo).any():
-            ctx.bump("empty_intersection_not_judged")
+            # nothing of the request lies inside the image: clipped to the (empty) intersection, or refused as a boundary error -
+            # not failed with some other error
+            ctx.bump("empty_intersection")
+            if exc is not None and not isinstance(exc, (ImageBoundaryError, ValueError)) or \
+                    (isinstance(exc, ValueError) and "greater" not in str(exc) and "min" not in str(exc).lower()):
+                ctx.fail("request_outside_the_image_neither_clipped_nor_refused_as_a_boundary_error", cls=cls, mech=side + ":" + type(exc).__name__, error=repr(exc)[:160])
+            elif exc is None:
+                r0 = res[0] if st["rt"] else res
+                want = tuple(int(v) for v in np.maximum(chi - clo, 0))
+                if tuple(r0.pixels.shape[1:]) != want or r0.pixels.dtype != st["px"].dtype:
+                    ctx.fail("cropped_pixels_are_not_the_source_block", cls=cls, mech=nd + ":empty_intersection", expected_shape=list(want), got_shape=list(r0.pixels.shape[1:]))
             return
         if exc is not None:
             ctx.fail("valid_crop_raised", cls=cls, mech=nd + ":" + type(exc).__name__, error=repr(exc)[:200])
@@ -263,7 +287,9 @@ class PatchMonitor(taps.Monitor):
             if not np.array_equal(np.asarray(res), exp, equal_nan=exp.dtype.kind == "f"):
                 bad = np.argwhere(~((np.asarray(res) == exp) | ((np.asarray(res) != np.asarray(res)) & (exp != exp))))
                 H, W = st["px"].shape[1:]
-                ctx.fail("patch_values_differ_from_nearest_neighbour_reference", cls=cls, mech=mech, first_bad=bad[0].tolist(), n_bad=int(len(bad)),
+                if only_double_rounding(np.asarray(res), exp):
+                    mech = "64bit_integers_beyond_2**53_rounded_through_double"
+                ctx.fail("patch_values_differ_from_nearest_neighbour_reference", cls=cls if "rounded_through_double" not in mech else "Image", mech=mech, first_bad=bad[0].tolist(), n_bad=int(len(bad)),
                          image_shape=[H, W], patch_shape=[ph, pw], centre=st["centres"][bad[0][0]].tolist())
         ctx.see("patch_kinds", (cls, min(C, 5), str(st["px"].dtype), (ph % 2, pw % 2, ph == pw), st["order"], st["mode"], offs is not None))
 
@@ -439,6 +465,11 @@ def w_patches(ctx, rng, i):
     shp = (int(rng.integers(6, 20)), int(rng.integers(6, 20)))
     im = gen.image(rng, cls, shape=shp, n_channels=C, dtype=dt)
     C = im.n_channels
+    if cls != "BooleanImage" and dt == np.int32 and rng.random() < 0.4:
+        # 64-bit counters / identifiers: values no double holds exactly
+        big = rng.integers(2 ** 53, 2 ** 62, im.pixels.shape, dtype=np.int64) | 1
+        im.pixels = big * rng.choice([-1, 1], big.shape)
+        dt = np.int64
     nonfinite = False
     if im.pixels.dtype.kind == "f" and rng.random() < 0.3:
         # missing / unbounded values are pixel values like any other for a nearest-neighbour copy
@@ -479,7 +510,9 @@ def w_patches(ctx, rng, i):
         a = extract_patches_with_slice(im.pixels, c, (ph, pw), offsets=offs, cval=cval)
         b = extract_patches_by_sampling(im.pixels, c, (ph, pw), offsets=offs, order=0, mode="constant", cval=cval)
         ctx.tap("path_equivalence", "calls"); ctx.tap("path_equivalence", "checked")
-        if a.shape != b.shape or not np.array_equal(a, b, equal_nan=a.dtype.kind == "f"):
+        if a.shape == b.shape and only_double_rounding(b, a):
+            ctx.fail("slicing_path_and_resampling_path_disagree", cls="Image", mech="64bit_integers_beyond_2**53_rounded_through_double")
+        elif a.shape != b.shape or not np.array_equal(a, b, equal_nan=a.dtype.kind == "f"):
             ctx.fail("slicing_path_and_resampling_path_disagree", cls=cls, mech="%dch:%s" % (C, ck) + (":non_finite_pixels" if nonfinite else "") + (":nan_fill" if cval != cval else ""),
                      patch_shape=[ph, pw], image_shape=list(shp))
     # ---- write-back round trips on interior patches
@@ -495,6 +528,12 @@ def w_patches(ctx, rng, i):
             ctx.tap("write_back", "calls"); ctx.tap("write_back", "checked")
             if not np.array_equal(back.pixels, im.pixels):
                 ctx.fail("writing_extracted_patches_back_does_not_restore_the_image", cls=cls, mech="%d_%d" % (ph % 2, pw % 2))
+            # the documented list-of-images form of the patches is the same data
+            pl = im.extract_patches(pc, patch_shape=(ph, pw), sample_offsets=offs, as_single_array=False)
+            back_l = im.set_patches(pl, pc, offset=off, offset_index=oi)
+            ctx.tap("write_back_list_form", "calls"); ctx.tap("write_back_list_form", "checked")
+            if back_l.pixels.dtype != im.pixels.dtype or not np.array_equal(back_l.pixels, im.pixels):
+                ctx.fail("writing_extracted_patches_back_does_not_restore_the_image", cls=cls, mech="list_of_images:%s" % np.dtype(dt).name)
             # the landmark-group wrapper is the same operation
             im2 = im.copy()
             im2.landmarks["centres"] = pc
